@@ -257,13 +257,13 @@ def gen_cases(tier, seed):
     q = tier == "quick"
     cases = []
     names = list(SHAPES)
-    for i in range(120 if q else 2500):
+    for i in range(120 if q else 6000):
         rng = rng_for(seed, "c12-gen", i)
         k = int(rng.integers(1, 5))
         keys = [str(x) for x in rng.choice(names, size=k, replace=False)]
         cases.append({"kind": "protocol", "idx": i, "seed": seed, "keys": keys, "diag": bool(i % 2), "kernel": "nuts" if i % 4 < 2 else "hmc",
                       "T": int(rng.integers(8, 60)) if i % 5 else int(rng.integers(3, 8)), "n_extra": int(rng.integers(0, 3)), "with_extra": bool(rng.random() < 0.6), "cost": 2})
-    for i in range(8 if q else 60):
+    for i in range(8 if q else 200):
         rng = rng_for(seed, "c12-geneng", i)
         k = int(rng.integers(2, 4))
         keys = [str(x) for x in rng.choice(names, size=k, replace=False)]
